@@ -575,3 +575,40 @@ pub fn z_more(a: In) -> Out {
         match po { Some(core::cmp::Ordering::Less) => 1, Some(core::cmp::Ordering::Equal) => 2, Some(core::cmp::Ordering::Greater) => 3, None => 4 },
     ]
 }
+
+pub fn z_more2(a: In) -> Out {
+    // filter under rank-dependent adapters: zip, enumerate, skip, take
+    let mut out = [0u32; 6];
+    for (slot, x) in out.iter_mut().zip(a.iter().filter(|x| **x & 1 == 1)) {
+        *slot = *x;
+    }
+    let mut en = 0u64;
+    for (i, x) in a.iter().filter(|x| **x > 2).enumerate() {
+        en += (i as u64 + 1) * u64::from(*x & 0xFF);
+    }
+    let sk: u64 = a.iter().filter(|x| **x % 3 != 0).skip(1).take(2).map(|x| u64::from(*x & 0xFFFF)).sum();
+    // nth with a data-dependent count on a named iterator, then the rest
+    let mut it = a.iter();
+    let nth = it.nth((a[0] % 4) as usize).copied();
+    let rest: u64 = it.map(|x| u64::from(*x & 0xFF)).sum();
+    let lg = a[1].checked_ilog2();
+    let ones = a[2].leading_ones() + 100 * a[3].trailing_ones();
+    let dg = char::from_digit(a[4] % 20, 16).map(|c| c as u32);
+    let oc = (if a[5] & 1 == 1 { Some(a[5]) } else { None }).cmp(&if a[4] & 1 == 1 { Some(a[4]) } else { None });
+    [
+        u64::from(out[0]) | u64::from(out[1]) << 32,
+        u64::from(out[2]) | u64::from(out[5]) << 32,
+        en,
+        sk,
+        o(nth) ^ (rest << 44),
+        o(lg) ^ (u64::from(ones) << 44),
+        o(dg),
+        match oc { core::cmp::Ordering::Less => 1, core::cmp::Ordering::Equal => 2, core::cmp::Ordering::Greater => 3 },
+    ]
+}
+
+pub fn p_more(a: In) -> Out {
+    let lg = a[0].ilog2();
+    let d = char::from_digit(a[1] % 12, 10).unwrap();
+    [u64::from(lg), u64::from(d as u32), 0, 0, 0, 0, 0, 0]
+}
